@@ -325,7 +325,10 @@ def monitor_c18(rep, n, maxops=8, pid="C18"):
                     stats["fan1"] += 1
                 elif not msg and short > EPS:
                     with contextlib.redirect_stdout(io.StringIO()):
-                        feas = R.hub.get_connected(direction=k, of_type=R.ot(op[2]), tag=c.get("tag", "default"))["avail"]
+                        # (asked of the arcs one by one, not of the hub's own view of its neighbourhood)
+                        tg = c.get("tag", "default")
+                        feas = sum(frac((arcs[j][0].send_push_check(tag=tg) if k == "push" else arcs[j][0].send_pull_check(tag=tg))["volume"])
+                                   for j in sel if frac(arcs[j][0].preference) > 0)
                     if frac(feas) > EPS:
                         bad.append(f"{k}: fell short by {short} with {frac(feas)} still feasible and no iteration-limit message")
                 # proportional shares when everything fits in the first round
